@@ -365,7 +365,8 @@ class Inliner:
                 self._tmp += 1
                 t = f"{p}"
                 # the callee re-binds its parameter: bind the argument to the parameter's own name first
-                pre.append(ast.Assign(targets=[ast.Name(id=t, ctx=ast.Store())], value=clone(v), lineno=call.lineno, col_offset=0))
+                if not (isinstance(v, ast.Name) and v.id == p):
+                    pre.append(ast.Assign(targets=[ast.Name(id=t, ctx=ast.Store())], value=clone(v), lineno=call.lineno, col_offset=0))
             else:
                 mapping[p] = v
         body = [clone(s) for s in _body_without_doc(fn)]
@@ -401,7 +402,8 @@ class Inliner:
         mapping: Dict[str, ast.AST] = {}
         for p, v in binding.items():
             if p in rebound:
-                pre.append(ast.Assign(targets=[ast.Name(id=p, ctx=ast.Store())], value=clone(v), lineno=call.lineno, col_offset=0))
+                if not (isinstance(v, ast.Name) and v.id == p):
+                    pre.append(ast.Assign(targets=[ast.Name(id=p, ctx=ast.Store())], value=clone(v), lineno=call.lineno, col_offset=0))
             else:
                 mapping[p] = v
         body = tailify([clone(s) for s in _body_without_doc(fn)])
